@@ -4,5 +4,5 @@ for p in $(ps -eo pid,args | grep -E "tools/mutcheck|tools/battery" | grep -v gr
 sleep 1
 for p in $(ps -eo pid,args | grep -E "check.py C[0-9]" | grep -v grep | awk '{print $1}'); do kill $p 2>/dev/null; done
 git -C /repo worktree prune
-rm -rf /tmp/mutrun /verif/.cache/replay-*-???????? /verif/.cache/mir-target-????????
+rm -rf /tmp/mutrun /tmp/verif-snap /verif/.cache/replay-*-???????? /verif/.cache/mir-target-????????* /verif/.cache/entry-crate-* /verif/.cache/entry-target-*-????????
 echo stopped
